@@ -22,7 +22,7 @@
    of reorg's number->hash writes); they are checked by the direct oracle and the
    correspondence after every operation. *)
 From Coq Require Import NArith List.
-From AQ Require Import Chain.Store Chain.ChainSpec Chain.ChainProofs Chain.ChainWitness.
+From AQ Require Import Chain.Store Chain.ChainSpec Chain.ChainProofs Chain.Crash Chain.ChainReopen Chain.ChainWitness.
 Import ListNotations.
 Local Open Scope N_scope.
 
@@ -72,6 +72,21 @@ Theorem C03_stored_ancestry_partial : forall (U : N -> sblock) (g : header),
   (forall h t, header_of (dsk s) h <> None -> td_of (dsk s) h = Some t -> t <= head_td s).
 Proof. exact head_heaviest. Qed.
 Print Assumptions C03_stored_ancestry_partial.
+
+(* the top clause of canon_below, for every history of imports and restarts: the number
+   index at the head's own height names the head, and so does the LastBlock pointer.
+   (canon_below for the heights BELOW the head and lookup_exact remain unproved: they need
+   the characterisation of the entries reorg rewrites.) *)
+Theorem C03_head_named_partial : forall (U : N -> sblock) (g : header),
+  U (h_hash g) = (g, []) -> h_number g = 0 ->
+  forall (d0 : disk), h_hash g <> 0 -> d0 = genesis_disk g ->
+  forall ops,
+  imports_and_reopens ops ->
+  (forall b, In b (blocks_of ops) -> wf_block U b /\ h_hash (b_hdr b) <> 0) ->
+  let s := run ops (pre_open g) in
+  canon (dsk s) (s_num (cur_block s)) = s_hash (cur_block s) /\ hb (dsk s) = s_hash (cur_block s).
+Proof. exact head_named. Qed.
+Print Assumptions C03_head_named_partial.
 
 (* non-vacuity + the tie C04 builds on: the write log replays to the disk *)
 Example C03_log_replays :
